@@ -143,7 +143,8 @@ theorem set_ext_bytes (e : Enc) (b x f : Bytes) (h : fileName e b = some f) :
 
 /-- the same with the token decomposition made explicit (used by Props/C14) -/
 theorem set_ext_tokens (e : Enc) (b x f : Bytes) (h : fileName e b = some f) :
-    ∃ r j st, (e.new b).toks = r ++ [.seg f] ++ j ∧ fileStem e b = some st ∧
+    ∃ r j st, (e.new b).toks = r ++ [.seg f] ++ j ∧ (∀ t ∈ j, junk (e.new b).k t = true) ∧
+      fileStem e b = some st ∧
       setExtension e b x = ((e.new b).preBytes ++ untoks r ++ st ++ (if x = [] then [] else DOT :: x), true) := by
   obtain ⟨r, j, hts, hjunk, hsb⟩ := fileName_tokens e b f h
   obtain ⟨st, rest, hst, hf, hrest⟩ := rsplitDot_stem_prefix f
@@ -156,7 +157,7 @@ theorem set_ext_tokens (e : Enc) (b x f : Bytes) (h : fileName e b = some f) :
   simp only [PState.remaining] at hrem
   rw [hts, C09.untoks_append, C09.untoks_append] at hrem
   simp only [untoks, Tok.bytes, List.append_nil] at hrem
-  refine ⟨r, j, st, hts, hstem, ?_⟩
+  refine ⟨r, j, st, hts, hjunk, hstem, ?_⟩
   generalize (e.new b).preBytes = P at hrem hcut0 ⊢
   have hb : b = P ++ untoks r ++ f ++ untoks j := by
     rw [← hrem]; simp [List.append_assoc]
